@@ -25,6 +25,9 @@ type ProcScript struct {
 	KindOf func(src string, idx int, call int) string
 	// OpenMenu gates Open with the given answers when set (e.g. {"ok","err"}).
 	OpenMenu []string
+
+	mu        sync.Mutex
+	shortSeen map[string]bool
 }
 
 // Proc is one instance of a scripted processor.
@@ -99,6 +102,19 @@ func (p *Proc) Process(ctx context.Context, recs []opencdc.Record) []sdk.Process
 		if p.S.KindOf != nil {
 			kind = p.S.KindOf(src, idx, call)
 		}
+		if kind == "shortonce" { // returned short the first time this record is seen, processed normally when retried
+			p.S.mu.Lock()
+			if p.S.shortSeen == nil {
+				p.S.shortSeen = map[string]bool{}
+			}
+			first := !p.S.shortSeen[src+":"+strconv.Itoa(idx)]
+			p.S.shortSeen[src+":"+strconv.Itoa(idx)] = true
+			p.S.mu.Unlock()
+			kind = "pass"
+			if first {
+				kind = "short"
+			}
+		}
 		r = r.Clone()
 		if r.Metadata == nil {
 			r.Metadata = opencdc.Metadata{}
@@ -156,7 +172,10 @@ func NewProcs(w *verifkit.World) *Procs {
 }
 
 // Add registers a script under its name.
-func (p *Procs) Add(s ProcScript) { p.Scripts[s.Name] = &s }
+func (p *Procs) Add(s ProcScript) {
+	cp := ProcScript{Name: s.Name, Gate: s.Gate, Menu: s.Menu, KindOf: s.KindOf, OpenMenu: s.OpenMenu}
+	p.Scripts[s.Name] = &cp
+}
 
 // NewProcessor implements processor.PluginService.
 func (p *Procs) NewProcessor(_ context.Context, pluginName string, _ string, _ egress.Policy) (sdk.Processor, error) {
